@@ -620,6 +620,62 @@ def runPLine (r : Report) (sec : Nat) (l : Line) : Report :=
     return r
   | _, _ => r.mismatch sec l.idx "bad-op" (joinSp l.op)
 
+/-! ### `um`: one struct type carrying a `json` and a `form` tag on every field, read by the unmarshaler of one of the keys -/
+
+def keyPart (tv : Str) : Str := tv.takeWhile (· ≠ ',')
+
+mutual
+/-- the type as the `form` unmarshaler reads it: the bare key, no options -/
+def formViewTy : Ty → Ty
+  | .prim k => .prim k
+  | .ptr t => .ptr (formViewTy t)
+  | .slice t => .slice (formViewTy t)
+  | .map t => .map (formViewTy t)
+  | .struct fs => .struct (formViewFields fs)
+def formViewFields : Fields → Fields
+  | .nil => .nil
+  | .cons n tag t rest =>
+    .cons n (match tag with | some [] => some [] | some tv => some (keyPart tv) | none => none) (formViewTy t) (formViewFields rest)
+end
+
+mutual
+/-- some nested struct type is "required" under one tag key and not under the other: the place where a cache keyed by the
+type alone (structRequiredCache) hands one unmarshaler the other's answer -/
+def requiredDiffersTy : Ty → Ty → Bool
+  | .ptr a, .ptr b => requiredDiffersTy a b
+  | .slice a, .slice b => requiredDiffersTy a b
+  | .map a, .map b => requiredDiffersTy a b
+  | .struct a, .struct b =>
+    (match structRequired a, structRequired b with
+     | .ok x, .ok y => x != y
+     | .error _, .error _ => false
+     | _, _ => true) || requiredDiffersFields a b
+  | _, _ => false
+def requiredDiffersFields : Fields → Fields → Bool
+  | .cons _ _ t r, .cons _ _ t' r' => requiredDiffersTy t t' || requiredDiffersFields r r'
+  | _, _ => false
+end
+
+def runMLine (r : Report) (sec : Nat) (l : Line) : Report :=
+  match parseOp l.op with
+  | none => r.mismatch sec l.idx "bad-op" (joinSp l.op)
+  | some op0 =>
+    let form := kvStr (l.op.take 4) "key" = "form"
+    let op : Op := { op0 with cfg := {}, ty := if form then formViewTy op0.ty else op0.ty }
+    let other : Ty := if form then op0.ty else formViewTy op0.ty
+    let mode := if form then "mode-two-keys(form)" else "mode-two-keys(json)"
+    -- KNOWN DEFECT (Props.structRequiredCache_witness, fixes/C08-struct-required-cache-per-tag-key.patch): the answer
+    -- of `structValueRequired` is cached by the type alone; where the two keys disagree on a nested struct the verdict may
+    -- follow the other key's answer, depending on which unmarshaler saw the type first.  Tolerated and counted.
+    let sensitive := requiredDiffersTy op.ty other
+    let verdictOf (obs : List String) : String := obs.headD ""
+    let modelVerdict := match unmarshal op.cfg op.ty op.input with | .ok _ => "ok" | .error .outside => "outside" | .error _ => "err"
+    if sensitive && modelVerdict ≠ "outside" && verdictOf l.obs ≠ "PANIC" && verdictOf l.obs ≠ modelVerdict then
+      ({ r with ops := r.ops + 1 }.addCover mode).addCover "known-defect-structRequiredCache-cross-key(tolerated)"
+    else
+      let r := if sensitive then r.addCover "two-keys-required-differs" else r
+      runU r sec l op mode l.obs
+
 /-! ### `v`: lookups through the valuers of core/mapping/valuer.go on a chain of nested objects
   v C [ {current} {parent} {grandparent} … ] Q [ s:r.<key> | s:s.<key> … ]  =>  found <value> | absent ; …
 `r.` = `recursiveValuer` (a field tagged `inherit`), `s.` = `simpleValuer`; the queries run in order on the same maps (the
@@ -737,6 +793,7 @@ def runSection (r : Report) (s : Section) : Report :=
       let via := kvStr (l.op.take 4) "via"
       runFrontEnd r s.idx l s!"mode-conf({if via = "file" then "Load" else "LoadFrom"}{fmt})" true (fmt = "yaml")
     else if l.op.head? = some "v" then runVLine r s.idx l
+    else if l.op.head? = some "um" then runMLine r s.idx l
     else if l.op.head? = some "u" then runLine r s.idx l
     else r.mismatch s.idx l.idx "bad-op" (joinSp l.op)) r
 
